@@ -50,7 +50,7 @@ ASSUMPTIONS = [
 ]
 BUDGET = {"quick": {"soft_s": 110}, "thorough": {"soft_s": 560}}
 MIN_EVALUATIONS = {"quick": 3000, "thorough": 50000}
-REQUIRED_COUNTERS = ["eval:class_invariant", "eval:model_data", "eval:model_origin", "eval:model_sampling", "eval:model_class", "eval:source_unchanged", "eval:twin_array", "eval:twin_calibration", "eval:invalid_must_raise", "eval:invalid_state_unchanged"]
+REQUIRED_COUNTERS = ["eval:write_reaches_other_dataset", "eval:invalid_call_must_raise", "eval:invalid_call_state_unchanged", "eval:class_invariant", "eval:model_data", "eval:model_origin", "eval:model_sampling", "eval:model_class", "eval:source_unchanged", "eval:twin_array", "eval:twin_calibration", "eval:invalid_must_raise", "eval:invalid_state_unchanged"]
 EXHAUSTIVE = {"quick": False, "thorough": False}  # the bounded-exhaustive part is complete (see coverage.bounded_exhaustive); the random part is sampling
 
 N_START = 6
@@ -203,6 +203,100 @@ def _a_idx_col_list(sh):
     return {"k": "index", "index": (slice(None), [0, -1])} if len(sh) >= 2 else None
 
 
+# ------------------------------------------------------------------------------------------------
+# requests with one unacceptable entry (rejected late: the other entries are fine) and no-op forms
+
+
+def _bad_ops(shape):
+    """every (operation, argument, position, kind of bad entry) for this shape; all other entries are valid and effective"""
+    nd = len(shape)
+    out = []
+
+    def add(k, kw, arg, kind, pos, n=nd):
+        out.append({"k": k, "kw": kw, "invalid": True, "inplace": True, "bad": {"arg": arg, "kind": kind, "pos": pos, "n": n}})
+
+    base_cw = [((1, n) if n >= 2 else (0, n)) for n in shape]
+    for p in range(nd):
+        lo, hi = base_cw[p]
+        for kind, bad in (("not_a_pair", (lo,)), ("triple", (lo, hi, 1)), ("float_bound", (0.5, hi)), ("scalar", 1), ("str_bound", ("a", hi)), ("none", None)):
+            cw = list(base_cw)
+            cw[p] = bad
+            add("crop", {"crop_widths": tuple(cw)}, "crop_widths", kind, p)
+    if nd >= 2:  # axes given in descending order: the first entry belongs to the highest axis
+        cw = list(reversed(base_cw))
+        cw[0] = (base_cw[-1][0],)
+        add("crop", {"crop_widths": tuple(cw), "axes": tuple(reversed(range(nd)))}, "crop_widths", "not_a_pair", 0)
+    base_pw = [((1, 0) if i % 2 == 0 else (0, 2)) for i in range(nd)]
+    for p in range(nd):
+        for kind, bad in (("negative", (1, -1)), ("float", (0.5, 1)), ("str", ("a", 1))):
+            pw = list(base_pw)
+            pw[p] = bad
+            add("pad", {"pad_width": tuple(pw)}, "pad_width", kind, p)
+        for kind, bad in (("str", "a"), ("none", None)):
+            osh = [n + 2 for n in shape]
+            osh[p] = bad
+            add("pad", {"output_shape": tuple(osh)}, "output_shape", kind, p)
+    base_f = [2 if n >= 2 else 1 for n in shape]
+    for p in range(nd):
+        for kind, bad in (("zero", 0), ("negative", -2), ("float", 2.0), ("str", "2")):
+            f = list(base_f)
+            f[p] = bad
+            add("bin", {"bin_factors": tuple(f)}, "bin_factors", kind, p)
+        for kind, bad in (("zero", 0), ("negative", -3), ("str", "a"), ("none", None)):
+            osh = [n + 1 for n in shape]
+            osh[p] = bad
+            add("resample", {"out_shape": tuple(osh)}, "out_shape", kind, p)
+        for kind, bad in (("str", "a"), ("none", None)):
+            f = [1.5] * nd
+            f[p] = bad
+            add("resample", {"factors": tuple(f)}, "factors", kind, p)
+    return out
+
+
+NOOP_FORMS = ["pad_zero", "pad_same_shape", "pad_smaller_shape", "crop_zero_zero", "crop_full_range", "bin_one", "resample_same_shape", "resample_factor_one", "copy", "index_full_slice", "index_ellipsis"]
+
+
+def _noop_op(name, shape):
+    """operations that leave shape and content as they are but still 'return a new dataset'"""
+    nd = len(shape)
+    if name == "pad_zero":
+        return {"k": "pad", "kw": {"pad_width": 0}, "inplace": False}
+    if name == "pad_same_shape":
+        return {"k": "pad", "kw": {"output_shape": tuple(shape)}, "inplace": False}
+    if name == "pad_smaller_shape":
+        return {"k": "pad", "kw": {"output_shape": tuple(max(1, n - 1) for n in shape)}, "inplace": False}
+    if name == "crop_zero_zero":
+        return {"k": "crop", "kw": {"crop_widths": ((0, 0),) * nd}, "inplace": False}
+    if name == "crop_full_range":
+        return {"k": "crop", "kw": {"crop_widths": tuple((0, n) for n in shape)}, "inplace": False}
+    if name == "bin_one":
+        return {"k": "bin", "kw": {"bin_factors": 1}, "inplace": False}
+    if name == "resample_same_shape":
+        return {"k": "resample", "kw": {"out_shape": tuple(shape)}, "inplace": False}
+    if name == "resample_factor_one":
+        return {"k": "resample", "kw": {"factors": 1.0}, "inplace": False}
+    if name == "copy":
+        return {"k": "copy"}
+    if name == "index_full_slice":
+        return {"k": "index", "index": slice(None)}
+    return {"k": "index", "index": Ellipsis}
+
+
+def _a_poke(sh):
+    return {"k": "poke", "form": "iadd", "target": "cur"}
+
+
+def _a_pad_noop(sh):
+    return _noop_op("pad_same_shape", sh)
+
+
+def _a_bad_crop_late(sh):
+    nd = len(sh)
+    cw = [((1, n) if n >= 2 else (0, n)) for n in sh]
+    cw[-1] = (cw[-1][0],)
+    return {"k": "crop", "kw": {"crop_widths": tuple(cw)}, "invalid": True, "inplace": True, "bad": {"arg": "crop_widths", "kind": "not_a_pair", "pos": nd - 1, "n": nd}}
+
+
 ALPHABET = {
     "copy": _a_copy, "set_origin_scalar": _a_set_origin_scalar, "set_sampling_list": _a_set_sampling_list, "set_units_tuple": _a_set_units_tuple,
     "set_origin_intarray": _a_set_origin_intarray, "bad_origin_len": _a_bad_origin_len, "bad_sampling_str": _a_bad_sampling_str, "bad_units_len": _a_bad_units_len,
@@ -212,6 +306,7 @@ ALPHABET = {
     "rs_up": _a_rs_up, "rs_factor_ip": _a_rs_factor_ip, "rs_axis0": _a_rs_axis0,
     "idx_int0": _a_idx_int0, "idx_neg_last": _a_idx_neg_last, "idx_step2": _a_idx_step2, "idx_negstep": _a_idx_negstep, "idx_list": _a_idx_list,
     "idx_mixed": _a_idx_mixed, "idx_col_list": _a_idx_col_list,
+    "poke": _a_poke, "pad_noop": _a_pad_noop, "bad_crop_late": _a_bad_crop_late,
 }
 ALPHA_NAMES = list(ALPHABET)
 
@@ -232,6 +327,15 @@ def plan(tier, seed):
         for d in range(1, depth + 1):
             for seq in itertools.product(range(len(ALPHA_NAMES)), repeat=d):
                 specs.append({"kind": "exh", "start": s, "ops": [ALPHA_NAMES[i] for i in seq]})
+    targeted = []
+    for s in range(N_START):
+        shape = START_STATES[s][1]
+        for i in range(len(_bad_ops(shape))):
+            targeted.append({"kind": "badargs", "start": s, "i": i, "_must_run": True})
+        for name in NOOP_FORMS:
+            for target in ("result", "source"):
+                for form in ("iadd", "fill", "block"):
+                    targeted.append({"kind": "noop_poke", "start": s, "noop": name, "target": target, "form": form, "_must_run": True})
     nrand = 1500 if tier == "quick" else 100000
     # interleave the random histories so that a soft-budget cut does not remove them wholesale
     step = max(1, len(specs) // nrand)
@@ -245,7 +349,7 @@ def plan(tier, seed):
     while r < nrand:
         out.append({"kind": "random", "depth": 12, "_must_run": True})
         r += 1
-    return out
+    return targeted + out
 
 
 # ------------------------------------------------------------------------------------------------
@@ -377,7 +481,11 @@ def _op_repr(op):
         return "set %s=%r%s" % (op["attr"], op["value"], "" if op["valid"] else " (invalid)")
     if op["k"] == "set_array":
         return "set array=%s%s%s" % (op["value"].dtype, op["value"].shape, "" if op["valid"] else " (invalid)")
+    if op["k"] == "poke":
+        return "write(%s) into the array of #%s" % (op["form"], op.get("target", "cur"))
     if op["k"] in TWIN_KINDS:
+        if op.get("invalid"):
+            return "%s(%s) (invalid: %s at entry %s)" % (op["k"], ", ".join("%s=%r" % kv for kv in op["kw"].items()), op["bad"]["kind"], op["bad"]["pos"])
         return "%s(%s)%s" % (op["k"], ", ".join("%s=%r" % kv for kv in op["kw"].items()), " in place" if op["inplace"] else "")
     return op["k"]
 
@@ -388,13 +496,24 @@ class Hist:
     def __init__(self, ctx, ds, model):
         self.ctx = ctx
         self.live = []  # [ds, model, snapshot, label]
-        self.cur = self._add(ds, model, "start")
+        # expected buffer ownership: datasets in the same group may legitimately share memory (index results are numpy views of
+        # their source); every other dataset returned by copy / pad / crop / bin / fourier_resample owns its data
+        self.buf = []
+        self.made_by = []
+        self._nbuf = 0
+        self.cur = self._add(ds, model, "start", "construct")
         self.log = []
         self.kinds = []
         self.shape_changes = 0
 
-    def _add(self, ds, model, label):
+    def new_buf(self):
+        self._nbuf += 1
+        return self._nbuf
+
+    def _add(self, ds, model, label, made_by, buf=None):
         self.live.append([ds, model, _snapshot(ds), label])
+        self.buf.append(self.new_buf() if buf is None else buf)
+        self.made_by.append(made_by)
         return len(self.live) - 1
 
     def trail(self):
@@ -493,6 +612,10 @@ def _step(ctx, H, op):
     ds, m, snap, label = H.live[H.cur]
     H.log.append(_op_repr(op))
     what = lambda: "history [%s] from %s" % (H.trail(), H.live[0][3])
+    if k == "poke":
+        return _step_poke(ctx, H, op, what)
+    if op.get("invalid"):
+        return _step_invalid_call(ctx, H, op, what)
     fields = {"op": k}
     if k == "index":
         fields["index_forms"] = _idx_forms(op["index"])
@@ -535,6 +658,9 @@ def _step(ctx, H, op):
             H.kinds.append("invalid")
             return True
         setattr(ds, attr, op["value"])
+        if k == "set_array":
+            H.buf[H.cur] = H.new_buf()
+            H.made_by[H.cur] = "set_array"
         H.live[H.cur][1] = m2
         _compare_model(ctx, ds, m2, k, src_dtype, fields, what)
         _check_unchanged(ctx, H, {H.cur}, fields, what)
@@ -554,7 +680,8 @@ def _step(ctx, H, op):
         m_new.arr = np.array(res.array, copy=True)
         if tuple(res.array.shape) != tuple(m_new.shape):
             return False
-        H.cur = H._add(res, m_new, "%s #%d" % (k, len(H.live)))
+        # copy() owns its data; an index result is a numpy view of its source (same group, writes propagate legitimately)
+        H.cur = H._add(res, m_new, "%s #%d" % (k, len(H.live)), k, buf=(H.buf[H.cur] if k == "index" else None))
         if k == "index":
             H.shape_changes += 1
             idx = op["index"] if isinstance(op["index"], tuple) else (op["index"],)
@@ -601,7 +728,10 @@ def _step(ctx, H, op):
         m_ip.arr = np.array(ds.array, copy=True)
         H.live[H.cur][1] = m_ip
         H.live[H.cur][2] = _snapshot(ds)
-        new_i = H._add(res, m_new, "%s #%d" % (k, len(H.live)))
+        if k != "crop":  # in-place pad / bin / resample install a freshly computed array; in-place crop keeps a view of the object's own buffer
+            H.buf[H.cur] = H.new_buf()
+        H.made_by[H.cur] = k + "_inplace"
+        new_i = H._add(res, m_new, "%s #%d" % (k, len(H.live)), k + "_copying")
         if not op["inplace"]:
             H.cur = new_i
         if tuple(m_new.shape) != tuple(m.shape):
@@ -612,6 +742,78 @@ def _step(ctx, H, op):
         ctx.state["op_bigrams"].add((H.kinds[-2], H.kinds[-1]))
     c = H.live[H.cur][0]
     ctx.state["abstract_states"].add((type(c).__name__, c.array.ndim, str(c.array.dtype)))
+    return True
+
+
+def _step_poke(ctx, H, op, what):
+    """an in-place write into the array of one live dataset (res.array[...] = x, res.array += 1, sub-block fill).
+    Datasets returned by copy / pad / crop / bin / fourier_resample own their data, so the write may only be seen by the
+    dataset itself and by datasets of its own view group (index results); every other live dataset must stay bit-identical."""
+    tgt = H.cur if op.get("target") in (None, "cur") else int(op["target"]) % len(H.live)
+    ds = H.live[tgt][0]
+    arr = ds.array
+    if not arr.size or not arr.flags.writeable:
+        return True
+    form = op["form"]
+    if form == "iadd":
+        ds.array += 1  # goes through the public array setter with the same object
+    elif form == "fill":
+        ds.array[...] = 3
+    else:
+        ds.array[tuple(slice(0, max(1, n // 2)) for n in arr.shape)] = 7
+    ctx.count("op:poke")
+    fields = {"op": "poke", "poke_form": form, "writer_made_by": H.made_by[tgt]}
+    for i, (d, m, snap, label) in enumerate(H.live):
+        if H.buf[i] == H.buf[tgt]:
+            H.live[i][2] = _snapshot(d)  # the written dataset and its legitimate views follow the write
+            m.arr = np.array(d.array, copy=True)
+            continue
+        diff = _snap_diff(snap, _snapshot(d))
+        ctx.check(not diff, "write_reaches_other_dataset", lambda: "%s: writing into the array of dataset #%d (%s, made by %s) changed dataset #%d (%s, made by %s): %s" % (what(), tgt, H.live[tgt][3], H.made_by[tgt], i, label, H.made_by[i], diff), victim_made_by=H.made_by[i], **fields)
+        if diff:
+            H.live[i][2] = _snapshot(d)
+            m.arr = np.array(d.array, copy=True)
+    H.kinds.append("poke")
+    _check_invariants(ctx, H, fields, what)
+    return True
+
+
+def _step_invalid_call(ctx, H, op, what):
+    """an operation whose argument list has one unacceptable entry: both variants must raise and nothing may change -
+    not the target of the in-place variant (no half-applied request), not the source of the copying one, no other dataset"""
+    k = op["k"]
+    ds, m, snap, label = H.live[H.cur]
+    try:
+        _model_apply(m, op)
+        model_ok = True
+    except ModelInvalid:
+        model_ok = False
+    if model_ok:
+        raise HarnessError("generator marked %s invalid but the model accepts it" % _op_repr(op))
+    n = op["bad"]["n"]
+    pos = op["bad"]["pos"]
+    fields = {"op": k, "bad_entry": op["bad"]["kind"], "bad_position": "only" if n == 1 else ("first" if pos == 0 else ("last" if pos == n - 1 else "middle")), "arg": op["bad"]["arg"]}
+    ctx.count("op:invalid_" + k)
+    ok = True
+    for variant in ("copying", "inplace"):
+        raised = None
+        try:
+            _call(ds, op, variant == "inplace")
+        except Exception as e:  # noqa: BLE001
+            raised = e
+        ctx.check(raised is not None, "invalid_call_must_raise", lambda: "%s: the %s variant accepted the request" % (what(), variant), variant=variant, **fields)
+        for i, (d, mm, sn, lab) in enumerate(H.live):
+            diff = _snap_diff(sn, _snapshot(d))
+            role = "target" if i == H.cur else "other"
+            ctx.check(not diff, "invalid_call_state_unchanged", lambda: "%s: after the rejected %s call (%s) dataset #%d (%s, %s) changed: %s; shape now %s" % (what(), variant, type(raised).__name__, i, lab, role, diff, tuple(d.array.shape)), variant=variant, role=role, changed="+".join(diff), **fields)
+            if diff:
+                ok = False
+                H.live[i][2] = _snapshot(d)
+        if raised is None:
+            ok = False
+        if not ok:
+            return False  # the model cannot follow an accepted / half-applied invalid request
+    H.kinds.append("invalid_call")
     return True
 
 
@@ -747,10 +949,21 @@ def _rand_invalid_value(rng, attr, nd):
     return [[1.0] * (nd + 1), [1.0] * (nd - 1), "fast", None, ["a"] * nd, {"x": 1}, np.ones(nd + 2)][c]
 
 
-def _rand_op(rng, ds):
+def _rand_op(rng, ds, nlive=1):
     shape = tuple(ds.array.shape)
     nd = len(shape)
     size = int(np.prod(shape))
+    u0 = rng.random()
+    if u0 < 0.07:
+        return {"k": "poke", "form": ["iadd", "fill", "block"][int(rng.integers(3))], "target": "cur" if rng.random() < 0.5 else int(rng.integers(nlive))}
+    if u0 < 0.13:
+        op = dict(_noop_op(NOOP_FORMS[int(rng.integers(len(NOOP_FORMS)))], shape))
+        if "inplace" in op:
+            op["inplace"] = bool(rng.random() < 0.5)
+        return op
+    if u0 < 0.20:
+        bad = _bad_ops(shape)
+        return bad[int(rng.integers(len(bad)))]
     kinds = ["copy", "set", "invalid", "set_array", "pad", "crop", "bin", "resample", "index"]
     w = np.array([0.05, 0.13, 0.08, 0.05, 0.10, 0.13, 0.13, 0.13, 0.20])
     if size > 4000:
@@ -831,9 +1044,12 @@ def _rand_op(rng, ds):
 # ------------------------------------------------------------------------------------------------
 
 
-def _finish(ctx, H, start_cls, start_nd, extra_obs):
+def _finish(ctx, H, start_cls, start_nd, extra_obs, sig=None, nontrivial=None):
     kinds = H.kinds
-    ctx.nontrivial((start_cls, start_nd, tuple(kinds)), len(set(kinds)) >= 2 and H.shape_changes >= 1)
+    if sig is not None:
+        ctx.nontrivial(sig, nontrivial)
+    else:
+        ctx.nontrivial((start_cls, start_nd, tuple(kinds)), len(set(kinds)) >= 2 and H.shape_changes >= 1)
     ex = ctx.state["evidence_extra"]
     # single strings: core.jsonable truncates long lists
     ex["bigrams"] = " ".join(sorted("%s>%s" % b for b in ctx.state["op_bigrams"]))
@@ -866,6 +1082,36 @@ def _run_exh(spec, idx, ctx):
     _finish(ctx, H, cls_name, len(shape), {"ops": spec["ops"], "skipped_inapplicable": skipped})
 
 
+def _start_history(spec, idx, ctx):
+    rng = ctx.rng(idx)
+    cls_name, shape, dtype, calform = START_STATES[spec["start"]]
+    arr = G.rand_data(rng, shape, dtype)
+    ds, model = _build(ctx, cls_name, arr, G.rand_calibration(rng, len(shape), form=calform))
+    H = Hist(ctx, ds, model)
+    H.live[0][3] = "%s%s %s" % (cls_name, shape, dtype)
+    return H, cls_name, shape
+
+
+def _run_badargs(spec, idx, ctx):
+    """complete grid: operation x argument x position of the bad entry x kind of bad entry, from every start state"""
+    H, cls_name, shape = _start_history(spec, idx, ctx)
+    op = _bad_ops(shape)[spec["i"]]
+    _step(ctx, H, op)
+    b = op["bad"]
+    _finish(ctx, H, cls_name, len(shape), {"bad_call": _op_repr(op)}, sig=("badargs", cls_name, op["k"], b["arg"], b["kind"], b["pos"]), nontrivial=len(shape) >= 2 and b["pos"] > 0)
+
+
+def _run_noop_poke(spec, idx, ctx):
+    """complete grid: no-op form of every operation that returns a new dataset x which side is written to x kind of write"""
+    H, cls_name, shape = _start_history(spec, idx, ctx)
+    op = _noop_op(spec["noop"], shape)
+    ok = _step(ctx, H, op)
+    if ok:
+        target = len(H.live) - 1 if spec["target"] == "result" else 0
+        _step(ctx, H, {"k": "poke", "form": spec["form"], "target": target})
+    _finish(ctx, H, cls_name, len(shape), {"noop": spec["noop"], "write_into": spec["target"], "form": spec["form"]}, sig=("noop_poke", cls_name, spec["noop"], spec["target"], spec["form"]), nontrivial=ok)
+
+
 def _run_random(spec, idx, ctx):
     rng = ctx.rng(idx)
     u = rng.random()
@@ -889,7 +1135,7 @@ def _run_random(spec, idx, ctx):
             H.cur = int(rng.integers(len(H.live)))  # go back to an earlier dataset of the history
             H.log.append("(continue on #%d)" % H.cur)
             jumps += 1
-        op = _rand_op(rng, H.live[H.cur][0])
+        op = _rand_op(rng, H.live[H.cur][0], len(H.live))
         if not _step(ctx, H, op):
             break
     _finish(ctx, H, cls_name, nd, {"jumps": jumps})
@@ -901,6 +1147,10 @@ def run_case(spec, idx, ctx):
         with np.errstate(all="ignore"):
             if spec["kind"] == "exh":
                 _run_exh(spec, idx, ctx)
+            elif spec["kind"] == "badargs":
+                _run_badargs(spec, idx, ctx)
+            elif spec["kind"] == "noop_poke":
+                _run_noop_poke(spec, idx, ctx)
             else:
                 _run_random(spec, idx, ctx)
 
